@@ -27,7 +27,7 @@ const char* const kNames[] = {"launch", "wake_one", "wake_all", "cancel", "pause
 // scenario 0: futex.  launch: a = waiter kind (0 plain, 1 observed, 2 cancellable), b = expected value matches?, c = executor
 // scenario 1: cancellable<future>. launch: a = unused, c = executor ; set_value a = which ; cancel a = which
 struct Waiter {
-  int idx = 0, kind = 0; bool match = true; int exec = 0; int inner_exec = -1;
+  int idx = 0, kind = 0; bool match = true; int exec = 0; int inner_exec = -1; int fi = 0;
   bool launched = false, started = false;
   bool suspended = false;        // on_suspend callback ran (only kinds 1, 2)
   uint64_t susp_stamp = 0;
@@ -44,12 +44,11 @@ struct Waiter {
   babylon::Future<void> fut;
 };
 
-struct WakeRec { bool all; uint64_t inv, ret; int n; bool done = false; };
+struct WakeRec { bool all; uint64_t inv, ret; int n; bool done = false; int fi = 0; };
 
 struct State {
   int scenario = 0;
-  CoFutex* futex_ptr = new CoFutex();
-  CoFutex& futex = *futex_ptr;
+  CoFutex* fx[2] = {new CoFutex(), new CoFutex()};  // two futexes: a wake on one must never resume a waiter of the other
   std::vector<Waiter*> waiters;
   std::vector<WakeRec*> wakes;
   babylon::ThreadPoolExecutor pool[2];
@@ -93,9 +92,9 @@ CoroutineTask<> futex_waiter(Waiter* w, babylon::Executor* ex) {
   if (!ex->is_running_in()) w->in_executor_ok = false;
   uint64_t expect = w->match ? FV : FV + 1;
   if (w->kind == 0) {
-    co_await S->futex.wait(expect);
+    co_await S->fx[w->fi]->wait(expect);
   } else {
-    co_await S->futex.wait(expect).on_suspend([w](CoFutex::Cancellation token) {
+    co_await S->fx[w->fi]->wait(expect).on_suspend([w](CoFutex::Cancellation token) {
       sim::drain();  // handing the token to another thread is a synchronising act of the client
       w->susp_stamp = stamp();
       w->token = token; w->has_token = (w->kind == 2);
@@ -167,9 +166,10 @@ void do_op(int t, const Op& op) {
       }
       WakeRec* r = new WakeRec();
       r->all = op.kind == K_WAKE_ALL;
+      r->fi = (int)(op.c & 1);
       r->inv = stamp();
       S->wakes.push_back(r);
-      r->n = r->all ? S->futex.wake_all() : S->futex.wake_one();
+      r->n = r->all ? S->fx[r->fi]->wake_all() : S->fx[r->fi]->wake_one();
       r->ret = stamp(); r->done = true;
       if (!r->all) probe(r->n ? "wake_one_1" : "wake_one_0");
       if (r->n < 0 || (!r->all && r->n > 1)) fail("api", "wake", "wake returned %d", r->n);
@@ -200,11 +200,11 @@ void do_op(int t, const Op& op) {
     case K_CHANGE: {
       // the classic futex protocol of a waker: change the word, then wake everybody
       if (S->scenario != 0) return;
-      S->futex.atomic_value().store(FV + 100, std::memory_order_seq_cst);
+      S->fx[0]->atomic_value().store(FV + 100, std::memory_order_seq_cst);
       WakeRec* r = new WakeRec();
-      r->all = true; r->inv = stamp();
+      r->all = true; r->fi = 0; r->inv = stamp();
       S->wakes.push_back(r);
-      r->n = S->futex.wake_all();
+      r->n = S->fx[0]->wake_all();
       r->ret = stamp(); r->done = true;
       S->value_changed = true;
       break;
@@ -243,6 +243,22 @@ void gen(Rng& r, Plan& p, const GenParams& gp) {
     add(1, K_PAUSE, (int64_t)r.range(50, 300), 0, 0);
     add(1, K_LAUNCH, 2, 1, (int64_t)r.below(2) | (1 << 8));
     add(1, r.chance(3, 4) ? K_WAKE_ONE : K_WAKE_ALL, 2, 0, 0);
+    add(2, K_CANCEL, 0, 1, 0);
+    return;
+  }
+  if (scenario == 0 && r.chance(1, 8)) {
+    // targeted shape: cancel of the list head races with wake_all on futex 0; afterwards
+    // a new waiter (likely reusing the cancelled waiter's slot) waits on futex 1 and
+    // futex 0 is woken once more: it must not find anybody
+    nwait = 3; p.cfg["nwait"] = 3;
+    add(1, K_LAUNCH, 1, 0, (int64_t)r.below(2) | (1 << 8));
+    add(1, K_PAUSE, (int64_t)r.range(50, 300), 0, 0);
+    add(1, K_LAUNCH, 2, 1, (int64_t)r.below(2) | (1 << 8));
+    add(1, K_WAKE_ALL, 2, 0, 0);
+    add(1, K_PAUSE, (int64_t)r.range(20, 200), 0, 0);
+    add(1, K_LAUNCH, 1, 2, (int64_t)r.below(2) | (1 << 8) | (1 << 9));
+    add(1, K_AWAIT, 0, 2, 0);
+    add(1, K_WAKE_ONE, 0, 0, 0);
     add(2, K_CANCEL, 0, 1, 0);
     return;
   }
@@ -288,21 +304,22 @@ void gen(Rng& r, Plan& p, const GenParams& gp) {
     for (int w = 0; w < nwait; w++) add(2 + (w % 2 && nthreads >= 3 ? 1 : 0), K_CANCEL, 0, w, 0);
     return;
   }
-  // waiter attributes live in the launch op: a = kind, b = waiter index, c = executor | match<<8
+  // waiter attributes live in the launch op: a = kind, b = waiter index, c = executor | inner executor<<4 | match<<8 | futex<<9
+  bool two_futexes = scenario == 0 && r.chance(1, 3);
   for (int w = 0; w < nwait; w++) {
     int t = (int)r.range(1, nthreads);
     int kind = scenario == 0 ? (int)r.below(3) : 2;
     int match = scenario == 0 ? (r.chance(5, 6) ? 1 : 0) : 1;
     if (r.chance(1, 3)) add(t, K_PAUSE, (int64_t)r.range(1, 300), 0, 0);
-    add(t, K_LAUNCH, kind, w, (int64_t)r.below(2) | ((int64_t)r.below(3) << 4) | (match << 8));
+    add(t, K_LAUNCH, kind, w, (int64_t)r.below(2) | ((int64_t)r.below(3) << 4) | (match << 8) | ((two_futexes ? (int64_t)r.below(2) : 0) << 9));
   }
   int nops = (int)r.range(2, gp.thorough ? 10 : 7);
   for (int i = 0; i < nops; i++) {
     int t = (int)r.range(1, nthreads);
     int k = (int)r.below(10);
     if (scenario == 0) {
-      if (k < 4) add(t, K_WAKE_ONE, 0, 0, 0);
-      else if (k < 6) add(t, K_WAKE_ALL, 0, 0, 0);
+      if (k < 4) add(t, K_WAKE_ONE, 0, 0, two_futexes ? (int64_t)r.below(2) : 0);
+      else if (k < 6) add(t, K_WAKE_ALL, 0, 0, two_futexes ? (int64_t)r.below(2) : 0);
       else if (k < 9) add(t, K_CANCEL, 0, (int64_t)r.below((uint64_t)nwait), 0);
       else if (r.chance(1, 2)) add(t, K_CHANGE, 0, 0, 0);
       else add(t, K_PAUSE, (int64_t)r.range(1, 300), 0, 0);
@@ -324,14 +341,14 @@ void run(const Plan& p) {
   S = new State();
   State& s = *S;
   s.scenario = (int)p.get("scenario", 0);
-  s.futex.value() = FV;
+  s.fx[0]->value() = FV; s.fx[1]->value() = FV;
   int nwait = (int)std::max<int64_t>(0, std::min<int64_t>(p.get("nwait", 0), 16));
   for (int i = 0; i < nwait; i++) { Waiter* w = new Waiter(); w->idx = i; s.waiters.push_back(w); }
   // waiter attributes from launch ops; cancel targeting
   bool any_launch = false;
   for (auto& th : p.threads)
     for (auto& op : th) {
-      if (op.kind == K_LAUNCH && op.b >= 0 && op.b < nwait) { Waiter* w = s.waiters[(size_t)op.b]; w->kind = (int)(op.a % 3); w->exec = (int)(op.c & 0xf); w->inner_exec = (int)((op.c >> 4) & 0xf) - 1; w->match = ((op.c >> 8) & 1) != 0; any_launch = true; }
+      if (op.kind == K_LAUNCH && op.b >= 0 && op.b < nwait) { Waiter* w = s.waiters[(size_t)op.b]; w->kind = (int)(op.a % 3); w->exec = (int)(op.c & 0xf); w->inner_exec = (int)((op.c >> 4) & 0xf) - 1; w->match = ((op.c >> 8) & 1) != 0; w->fi = (int)((op.c >> 9) & 1); any_launch = true; }
       if (op.kind == K_CANCEL && op.b >= 0 && op.b < nwait) s.waiters[(size_t)op.b]->cancel_targeted = true;
       if (op.kind == K_CHANGE) s.change_planned = true;
     }
@@ -361,7 +378,7 @@ void run(const Plan& p) {
       int fin = 0; for (Waiter* x : s.waiters) if (x->finished) fin++;
       if (fin >= planned) {
         probe("futex_destroyed_early");
-        delete s.futex_ptr;
+        delete s.fx[0]; delete s.fx[1];
         w.join();
         for (Waiter* x : s.waiters) if (x->launched) x->fut.get();
         if (s.npool) s.pool[0].stop();
@@ -380,13 +397,13 @@ void run(const Plan& p) {
     // --- oracle at quiescence (no wake/cancel in progress, every launched coroutine ran as far as it can)
     for (Waiter* x : s.waiters) {
       if (!x->launched || x->finished) continue;
-      if (s.value_changed)
+      if (s.value_changed && x->fi == 0)
         fail("lost-wakeup", "futex-value-change", "waiter %d is suspended although the futex word was changed and wake_all() returned afterwards: either it suspended on a non-matching value or the wake missed it (check and enqueue are not atomic)", x->idx);
       if (!x->match) fail("suspended-on-mismatch", "futex-wait", "waiter %d did not finish although its expected value never matched", x->idx);
       // still suspended. Was there a wake that should have taken it?
       if (x->kind == 0 || x->cancel_targeted) continue;  // suspension moment unknown / may be being cancelled
       for (WakeRec* k : s.wakes) {
-        if (!k->done || !(x->suspended && x->susp_stamp < k->inv)) continue;
+        if (!k->done || k->fi != x->fi || !(x->suspended && x->susp_stamp < k->inv)) continue;
         if (k->all) fail("wake_all-missed", "futex-wake_all", "wake_all() returned %d and left waiter %d suspended, although it was suspended before the call began and is never cancelled", k->n, x->idx);
         if (k->n == 0) fail("wake_one-missed", "futex-wake_one", "wake_one() returned 0 although waiter %d was suspended before the call began, stayed suspended and is never cancelled", x->idx);
       }
@@ -399,28 +416,31 @@ void run(const Plan& p) {
       // sound only if no wake that started before this one returned can have
       // taken the waiter (a taken waiter is resumed asynchronously, later)
       bool overlapped = false;
-      for (WakeRec* o : s.wakes) if (o != k && o->inv < k->ret && !(o->done && o->n == 0)) overlapped = true;
+      for (WakeRec* o : s.wakes) if (o != k && o->fi == k->fi && o->inv < k->ret && !(o->done && o->n == 0)) overlapped = true;
       if (overlapped) continue;
       for (Waiter* x : s.waiters) {
-        if (!x->launched || x->kind != 1 || x->cancel_targeted || !x->match) continue;
+        if (!x->launched || x->kind != 1 || x->cancel_targeted || !x->match || x->fi != k->fi) continue;
         if (x->suspended && x->susp_stamp < k->inv && (x->resumed == 0 || x->resumed_stamp > k->ret))
           fail("wake_one-missed", "futex-wake_one", "wake_one() returned 0 although waiter %d was suspended before the call began, was not resumed until after it returned, is never cancelled, and no other wake that started before it returned woke anybody", x->idx);
       }
     }
     // final: wake everybody, everything must finish
-    int final_woken = s.futex.wake_all();
+    int final_woken[2] = {s.fx[0]->wake_all(), 0};
     wait_idle();
-    int resumed_by_wake = 0, wake_returns = final_woken;
-    for (WakeRec* k : s.wakes) wake_returns += k->n;
-    for (Waiter* x : s.waiters) {
-      if (!x->launched) continue;
-      if (!x->finished) fail("never-resumed", "futex-wait", "waiter %d (kind %d) is still suspended after a final wake_all() returned %d and everything went idle", x->idx, x->kind, final_woken);
-      if (x->match && !x->cancel_won && (x->kind == 0 || x->suspended)) resumed_by_wake++;
+    final_woken[1] = s.fx[1]->wake_all();
+    wait_idle();
+    for (Waiter* x : s.waiters)
+      if (x->launched && !x->finished) fail("never-resumed", "futex-wait", "waiter %d (kind %d, futex %d) is still suspended after final wake_all() calls returned %d/%d and everything went idle", x->idx, x->kind, x->fi, final_woken[0], final_woken[1]);
+    // per futex: what the wake calls reported == suspended waiters of THAT futex resumed by wakes
+    // (waiters of kind 0 that matched are always suspended: the word only changes in change plans)
+    for (int f = 0; f < 2 && !s.change_planned; f++) {
+      int resumed_by_wake = 0, wake_returns = final_woken[f];
+      for (WakeRec* k : s.wakes) if (k->fi == f) wake_returns += k->n;
+      for (Waiter* x : s.waiters) if (x->launched && x->fi == f && x->match && !x->cancel_won && (x->kind == 0 || x->suspended)) resumed_by_wake++;
+      if (wake_returns != resumed_by_wake)
+        fail("wake-count", "futex", "wake_one/wake_all on futex %d reported %d resumptions in total but %d of its suspended waiters were resumed by wakes (a wake resumed a waiter of another futex, or reported a phantom)", f, wake_returns, resumed_by_wake);
     }
-    // waiters of kind 0 that matched are always suspended (value never changes)
-    if (!s.change_planned && wake_returns != resumed_by_wake)
-      fail("wake-count", "futex", "wake_one/wake_all reported %d resumptions in total but %d suspended waiters were resumed by wakes (cancels won: %d)", wake_returns, resumed_by_wake, s.cancel_success);
-    if (s.futex.wake_one() != 0 || s.futex.wake_all() != 0) fail("wake-count", "futex", "wake on an empty futex reported a resumption");
+    for (int f = 0; f < 2; f++) if (s.fx[f]->wake_one() != 0 || s.fx[f]->wake_all() != 0) fail("wake-count", "futex", "wake on an empty futex reported a resumption");
   } else {
     // everyone not yet decided gets its value now
     for (Waiter* x : s.waiters) if (x->launched && !x->promise_set) {
